@@ -6,6 +6,7 @@ import (
 	"strconv"
 
 	"github.com/gkampitakis/go-snaps/internal/vxrt"
+	"github.com/tidwall/pretty"
 )
 
 // H_C19_standalone: a standalone file is exactly the formatted value (CR
@@ -56,7 +57,12 @@ func H_C19_json() {
 	t1.end()
 	vxrt.Assert(len(t1.errors) == 0 && len(t1.logs) == 1, "C19:json-record")
 	got := readFile(dir + "/TestJ_1.snap.json")
-	vxrt.Assert(vxrt.Eq(got, takeJSONSnapshot(c, []byte(doc))), "C19:json-file-is-pretty-json")
+	// the canonical form: tidwall/pretty with sorted keys and one-space indent, final newline trimmed
+	want := string(pretty.PrettyOptions([]byte(doc), &pretty.Options{SortKeys: true, Indent: " "}))
+	if len(want) > 0 && want[len(want)-1] == '\n' {
+		want = want[:len(want)-1]
+	}
+	vxrt.Assert(vxrt.Eq(got, want), "C19:json-file-is-pretty-json")
 	vxrt.Assert(validJSONString(got), "C19:json-file-is-valid-json")
 	vxrt.Assert(len(got) > 0 && got[len(got)-1] != '\n', "C19:json-no-added-newline")
 	t2 := newT("TestJ")
